@@ -6,7 +6,7 @@ from props import conn_common as cc
 RULE = ("random histories of protected sends (AARQ, RLRQ, GET, SET, ACTION), HLS replies and receives, 10..60 operations (thorough: "
         "up to 150), on keyed connections of every suite, starting client counters 0, 1, 7 and 2^32-3 (so the counter runs into "
         "the 32-bit limit) and starting meter counters 0, 5 and 2^32-3; received counters in every order: increasing, equal to "
-        "the last accepted, duplicates (the recorded APDU delivered again), decreasing runs, 0 and 2^32-1; each history runs on "
+        "the last accepted, duplicates (the recorded APDU delivered again, also right after a poll with nothing received), decreasing runs, 0 and 2^32-1; each history runs on "
         "the implementation with the AES-GCM primitive wrapped to record the nonces actually passed to it, and on the "
         "model (compared after every step). non-trivial = histories")
 ASSUMPTIONS = ["the nonces of the client's cryptographic operations are observed at cryptography's Cipher(...) call inside "
@@ -44,8 +44,13 @@ def history(r, ctx, suite, cic, mic, n):
         if x < .45:
             ops.append([0, r.choice([cc.get_v(), cc.next_v(r.randrange(5)), cc.set_v(), cc.action_v(b"\x09\x01\x00"), cc.rlrq_v(cc.CONF_C, 1200),
                                      cc.aarq_v(cc.CONF_C, 65535, cc.CLIENT_TITLE, 5, cc.CHALLENGE_C, True)])])
-        elif x < .55:
+        elif x < .52:
             ops.append([2])
+        elif x < .55:
+            # polling with nothing received (an empty transport read), then the most recent APDU delivered again
+            ops.append([1, b""])
+            if recorded:
+                ops.append([1, recorded[-1]])
         elif x < .63:
             # an association / release response, possibly from another meter that shares the keys, with a fresh, equal or old counter
             title = r.choice([cc.METER_TITLE, cc.METER_TITLE, b"METER002"])
